@@ -93,7 +93,7 @@ theorem idatChunks_spec (crc : Bytes → Nat) (s : Bytes) (hb : ∀ b ∈ s, b <
               conv => lhs; rw [k1, k2, k3, k4]
               simp only [List.append_assoc]
             · rw [idatWire_cons, hpos']
-              simp only [List.length_append, be32_length, hchunklen]
+              simp only [List.length_append, c_be32_length, hchunklen]
               simp [idatTag]; omega
             · intro d hd
               rcases List.mem_cons.mp hd with rfl | hd
@@ -118,7 +118,7 @@ theorem idatEmit_wire (crc : Bytes → Nat) : ∀ (ds : List Bytes) (pre content
     have hcont : (contents.drop idx).take d.length = d := by
       subst hc hi; simp
     have hrec := ih (pre ++ d) contents (idx + d.length) (by subst hc; simp) (by subst hi; simp)
-    simp only [List.map_cons, idatEmit, hlen, if_false, hcont, hrec, bind_ok, idatWire_cons]
+    simp only [List.map_cons, idatEmit, hlen, if_false, hcont, hrec, c_bind_ok, idatWire_cons]
 
 theorem length_flatten_le_wire (crc : Bytes → Nat) (ds : List Bytes) :
     ds.flatten.length ≤ (idatWire crc ds).length := by
@@ -151,7 +151,7 @@ theorem parseIdat_spec (crc : Bytes → Nat) (s : Bytes) (hb : ∀ b ∈ s, b < 
     | error e => rw [hc] at h; cases h
     | ok x =>
       obtain ⟨payload, sizes, pos⟩ := x
-      rw [hc, bind_ok] at h
+      rw [hc, c_bind_ok] at h
       simp only at h
       split at h
       · rw [throw_bind] at h; cases h
@@ -218,18 +218,18 @@ theorem readSizes_write : ∀ (sizes : List Nat) (fuel : Nat) (rest : Bytes),
     intro fuel rest _ hf
     obtain ⟨f, rfl⟩ : ∃ f, fuel = f + 1 := ⟨fuel - 1, by simp at hf; omega⟩
     simp only [List.flatMap_nil, List.nil_append, readSizes,
-      varint_lt 0 (by omega) rest, bind_ok, if_true]
+      varint_lt 0 (by omega) rest, c_bind_ok, if_true]
   | cons x xs ih =>
     intro fuel rest hx hf
     obtain ⟨f, rfl⟩ : ∃ f, fuel = f + 1 := ⟨fuel - 1, by simp at hf; omega⟩
     have hx0 := hx x (by simp)
     have hrec := ih f rest (fun y hy => hx y (by simp [hy])) (by simp at hf; omega)
     simp only [List.flatMap_cons, List.append_assoc, readSizes,
-      varint_lt x hx0.2 _, bind_ok, if_neg hx0.1]
+      varint_lt x hx0.2 _, c_bind_ok, if_neg hx0.1]
     rw [← List.append_assoc, hrec]
     rfl
 
-theorem ofBe32_be32 (v : Nat) (h : v < 2 ^ 32) : ofBe32 (be32 v) = v := by
+theorem c_ofBe32_be32 (v : Nat) (h : v < 2 ^ 32) : ofBe32 (be32 v) = v := by
   simp only [be32, ofBe32]; omega
 
 theorem readIdatContents_write (c : IdatContents) (rest : Bytes)
@@ -248,10 +248,10 @@ theorem readIdatContents_write (c : IdatContents) (rest : Bytes)
     rw [h1] at hfuel ⊢
     exact readSizes_write c.chunkSizes _ _ hsz hfuel
   unfold readIdatContents
-  rw [hr, bind_ok]
+  rw [hr, c_bind_ok]
   simp only
-  rw [takeExact_append' 2 _ _ hh, bind_ok]
+  rw [takeExact_append' 2 _ _ hh, c_bind_ok]
   simp only
-  rw [takeExact_append' 4 _ _ (be32_length _), bind_ok]
-  exact ⟨_, rfl, rfl, rfl, ofBe32_be32 _ ha⟩
+  rw [takeExact_append' 4 _ _ (c_be32_length _), c_bind_ok]
+  exact ⟨_, rfl, rfl, rfl, c_ofBe32_be32 _ ha⟩
 end Preflate.Proofs
